@@ -113,10 +113,11 @@ class Check:
             "violations": len(new),
         }
         ev["coverage"].update(self.extra)
-        os.makedirs(os.path.join(VERIF, "evidence"), exist_ok=True)
+        EVD = os.environ.get("BPPVERIF_EVIDENCE", os.path.join(VERIF, "evidence"))
+        os.makedirs(EVD, exist_ok=True)
         if self.broken:
             ev["coverage"]["analysis_broken"] = self.broken
-        with open(os.path.join(VERIF, "evidence", self.pid + ".json"), "w") as f:
+        with open(os.path.join(EVD, self.pid + ".json"), "w") as f:
             json.dump(ev, f, indent=1)
         print("%s [%s]: %d sites: %d proved, %d refuted (%d known), %d unknown; %d units, %d functions; %.1fs" % (
             self.pid, self.tier, len(self.sites), n_proved, len(refuted), len(known), n_unknown, len(self.units), self.n_functions, wall))
@@ -129,7 +130,7 @@ class Check:
                 print("ANALYSIS-BROKEN: property=%s %s" % (self.pid, b))
             return 2
         if new:
-            rd = os.path.join(VERIF, "evidence", "replay")
+            rd = os.path.join(EVD, "replay")
             os.makedirs(rd, exist_ok=True)
             for i, (s, _) in enumerate(new):
                 path = os.path.join(rd, "%s-%d.json" % (self.pid, i))
